@@ -284,7 +284,15 @@ func unknownCandidates(names []string) []string {
 	return out
 }
 
+// judgeUnknown asks for the unknown name three times in a row right after a successful lookup: the
+// answer must not depend on what was asked before (a registry that remembers lookups would show here).
 func judgeUnknown(s string) []outcome {
+	produce("1.001")
+	for i := 0; i < 2; i++ {
+		if d, ok, pv := produce(s); pv == "" && (ok || d != nil) {
+			return []outcome{{"C19:unknown-name-accepted:history-dependent", fmt.Sprintf("after Produce(\"1.001\"), call %d of Produce(%q) = (%T, %v) although ListSupportedTypes() does not list %q", i+1, s, d, ok, s)}}
+		}
+	}
 	d, ok, pv := produce(s)
 	switch {
 	case pv != "":
